@@ -5,6 +5,7 @@ let dispatch kind args =
   match kind with
   | "toobj" | "toobjalt" | "toiface" | "rtobj" | "rtobjalt" | "rtgo" -> C20.run kind args
   | "binop" | "vmbinop" | "equal" | "vmequal" | "nequal" | "vmnequal" | "unop" | "vmunop" -> C15.run kind args
+  | "skelvm" | "skelsem" -> C03.run kind args
   | _ -> failwith ("unknown kind " ^ kind)
 
 let () =
